@@ -166,7 +166,7 @@ BOOL = z3.BoolSort()
 
 def ghost_init(eng, name, ty):
     if ty == "trace":
-        return VList([])
+        return VList([], elemty={"opened_paths": "str", "open_files": "obj:RFile"}.get(name))
     if ty == "log":
         return VList([])
     return eng.fresh(ty, "ghost_" + name)
@@ -1068,6 +1068,10 @@ def dict_method(eng, world, d, m, args, kwargs, node):
     if m == "items":
         if d.sym is None and not d.overrides:
             return VList([VTuple([VStr(k) if isinstance(k, str) else VInt(k), v]) for k, v in d.items.items()])
+        if d.sym is not None and not d.overrides and not d.items:
+            # items of a symbolic dict: (key_i, d[key_i]) over the key list of keys()
+            keys = dict_method(eng, world, d, "keys", [], {}, node)
+            return VList(None, keys.n, lambda i, keys=keys, d=d: VTuple([keys.get(i), eng.dict_get(d, keys.get(i), node)]), "tuple")
         raise OutOfSubset("items() of symbolic dict")
     if m == "values":
         if d.sym is None and not d.overrides:
@@ -1761,3 +1765,32 @@ def textwfile_write(eng, world, w, args, kwargs, node):
 
 OBJ_METHODS["TextWFile"] = {"write"}
 SAFE_TEXT_FUNS = {"html_escape_nq"}
+
+
+def rfile_readlines(eng, world, f, args, kwargs, node):
+    eng.assumptions_used.add("readlines([hint]) returns some list of lines of the stream (their relation to the content is not modelled)")
+    n = z3.Int(eng.fresh_name("nlines"))
+    eng.assume(n >= 0)
+    return eng.symlist(n, "bytes" if f.cls == "RFile" and not getattr(f, "textmode", False) else "str", "lines")
+
+
+OBJ_IMPL[("RFile", "readlines")] = rfile_readlines
+OBJ_IMPL[("TFile", "readlines")] = rfile_readlines
+
+
+@ext("shelve.open")
+def shelve_open(eng, world, args, kwargs, node):
+    """shelve.open(path, flag): flag 'n' always creates a new, empty database and never reads what is on disk, so
+    only the OS can make it fail; every other flag parses the existing file(s) first, and a damaged database makes
+    the dbm layer raise whatever it likes (dbm.error, SyntaxError/ValueError from dbm.dumb, pickle errors, ...)."""
+    flag = eng.force(args[1]) if len(args) > 1 else eng.force(kwargs.get("flag", VStr("c")))
+    eng.assumptions_used.add("shelve.open(path, 'n') can fail only with OSError; with any other flag a damaged file on disk can raise any exception [dbm / dbm.dumb source]")
+    if not (isinstance(flag, VStr) and is_conc(flag.z)):
+        raise OutOfSubset("shelve.open with symbolic flag")
+    if eng.branch_fresh("shelve_open_fails"):
+        if flag.z == "n":
+            raise Raised(VExc("OSError", oserror_args(eng, "shelve")), getattr(node, "lineno", None))
+        raise Raised(VExc("Exception", [VStr(z3.String(eng.fresh_name("dbm_error")))]), getattr(node, "lineno", None))
+    d = VDict({}, sym=(eng.fresh_name("shelf"), "opaque:inode"), valty="opaque:inode")
+    d.is_shelf = True
+    return d
